@@ -11,10 +11,10 @@ class C01(Spec):
     extra_models = ('treel',)   # pointer-level model (TreeLinksModel.v): must print the same trace
     driver = 'tree'
     lib_srcs = ['bintree.c', 'rbtree.c']
-    header_words = ('keys', 'kind', 'cmpmode', 'vsign', 'swapobj')
+    header_words = ('keys', 'kind', 'cmpmode', 'vsign', 'swapobj', 'nestwalk')
 
     def more_variants(self, cases, tier, seed):
-        return T.swap_variants(cases, seed, every=3)
+        return T.swap_variants(cases, seed, every=3) + T.nestwalk_variants(cases, every=4)
     vsign_every = 4
     rule = ('cases = corpus + one case per edge of the breadth-first closure of the Coq model (binary tree and '
             'red-black tree, 5 elements with keys 0 0 1 1 2 and 6 elements 1 0 1 2 0 1 in the quick tier, 6 and 7 elements '
